@@ -19,6 +19,9 @@ import (
 type Case struct {
 	Mods   []*sg.Mod `json:"mods"`
 	Filter int       `json:"filter"`
+	// Again: 0 no; k > 0: the parse trees are compiled a second time - without a filter after a compile with the filter,
+	// and with the filter after a compile with filter number k-1
+	Again int `json:"again,omitempty"`
 }
 
 // the harness's own copy of the three predicates, as functions of the dumped kind and config flag
@@ -83,6 +86,9 @@ func init() {
 func genCase(t *rapid.T) Case {
 	g := &sg.G{T: t, Cfg: sg.GenCfg{ConfigFalse: true, MaxMods: 3}}
 	c := Case{Mods: g.GenSet(), Filter: g.Pick(len(filters), "filter")}
+	if g.Chance(1, 3, "again") {
+		c.Again = 1 + g.Pick(len(filters), "againfilter")
+	}
 	// operational command trees: a third class of nodes next to configuration and state
 	for i, m := range c.Mods {
 		if m.BelongsTo != "" || !g.Chance(1, 2, "opd") {
@@ -233,6 +239,34 @@ func checkCase(c Case) fw.Outcome {
 	got := canon.Dump(filtered.MS, opts)
 	if got != want {
 		out.Violation = fmt.Sprintf("filter %s: compiled-with-filter differs from pruned unfiltered schema\n%s\nmodules:\n%s", f.name, firstDiff(want, got), src)
+		return out
+	}
+	if c.Again > 0 {
+		// a filter decides what goes into the schema it is given to; it changes nothing else, the parsed modules included.
+		// Parse trees may be compiled again (compile.CompileDirKeepMods hands them back); what a second compilation gives
+		// is not the subject here (with submodules it fails, filter or no filter) - only that it does not depend on the
+		// filter the first compilation ran with.
+		other := filters[(c.Again-1)%len(filters)]
+		for _, second := range []filt{{name: "no filter"}, f, other} {
+			base := sgc.Compile(c.Mods, sgc.Opts{Features: sgc.AllFeatures{}, Filter: second.impl, HasPrior: true, PriorFilters: []compile.SchemaFilter{nil}})
+			if !base.OK() {
+				out.Labels = append(out.Labels, "second-compilation-fails")
+				continue
+			}
+			out.Labels = append(out.Labels, "compiled-again")
+			for _, first := range []filt{f, other} {
+				after := sgc.Compile(c.Mods, sgc.Opts{Features: sgc.AllFeatures{}, Filter: second.impl, HasPrior: true, PriorFilters: []compile.SchemaFilter{first.impl}})
+				if !after.OK() {
+					out.Violation = fmt.Sprintf("parsed modules that were compiled without a filter compile again with %s; after a compilation with %s they do not: %s\n%s", second.name, first.name, after.Describe(), src)
+					return out
+				}
+				if a, b := canon.Dump(base.MS, opts), canon.Dump(after.MS, opts); a != b {
+					out.Violation = fmt.Sprintf("second compilation (%s) of parsed modules: after a first compilation with %s the schema differs from the one after a first compilation without a filter\n%s\nmodules:\n%s",
+						second.name, first.name, firstDiff(a, b), src)
+					return out
+				}
+			}
+		}
 	}
 	return out
 }
@@ -252,6 +286,7 @@ var prune = fw.Register(&fw.Prop[Case]{
 	Rule: "compilable module sets with mixed config (config false subtrees at random nodes, lists with state children, choices, rpcs/notifications, augments, uses) x the enumerated filter family " +
 		"{IsConfig, IsState, IsOpd, IsConfigOrState(), IncludeState(b), Include(S), Exclude(S) for every subset S, Include(IsConfig, IncludeState(b))} (24 filters); " +
 		"oracle (metamorphic): canonical dump of compile-with-filter equals the dump of the unfiltered compile pruned top-down with the harness's own copy of the predicate; every attribute of the survivors is compared; " +
+		"in a third of the cases the parsed modules are compiled twice: the schema of the second compilation (without a filter, with the filter, with another filter) is the same whether the first one ran without a filter, with the filter or with another one; " +
 		"non-trivial = the filter removes at least one node and keeps at least one node with children; distinct by (filter, module texts)",
 	Gen: genCase, Check: checkCase,
 })
